@@ -227,6 +227,13 @@ Proof.
       [unfold legal, clean; vm_compute; intuition discriminate|vm_compute; reflexivity]).
 Qed.
 
+(* a categorical partition column with integer labels, label type recorded: the labels come back as integers *)
+Example C08_categorical_labels_nonvacuous :
+  cread [(s_ "c", KCat (Some (KInt true 64)))]
+    (cwrite true [s_ "c"] [[([Some (VCat (VInt 5))], 0%nat); ([Some (VCat (VInt (-7)))], 1%nat); ([Some (VCat (VInt 5))], 2%nat)]])
+  = Some (Hive, [([(s_ "c", VInt 5)], 0%nat); ([(s_ "c", VInt 5)], 2%nat); ([(s_ "c", VInt (-7))], 1%nat)]).
+Proof. vm_compute. reflexivity. Qed.
+
 Example C08_nonvacuous :
   parse_int (show_Z (-9223372036854775808)) = Some (-9223372036854775808)%Z /\
   split_on "/"%char (s_ "a=1/b=x/part.0.parquet") = [s_ "a=1"; s_ "b=x"; s_ "part.0.parquet"] /\
